@@ -30,6 +30,8 @@ PAIRS = {
     'betweenness_wei~bin': ('dir01', lambda b, X: b.betweenness_wei(X), lambda b, X: b.betweenness_bin(X)),
     'edge_betweenness_wei~bin': ('dir01', lambda b, X: list(b.edge_betweenness_wei(X)), lambda b, X: list(b.edge_betweenness_bin(X))),
     'efficiency_wei~bin_global': ('sym01', lambda b, X: b.efficiency_wei(X), lambda b, X: b.efficiency_bin(X)),
+    "efficiency_wei('global')~bin_global": ('sym01', lambda b, X: b.efficiency_wei(X, 'global'), lambda b, X: b.efficiency_bin(X)),
+    "efficiency_wei('local')~bin_local": ('sym01', lambda b, X: b.efficiency_wei(X, 'local'), lambda b, X: b.efficiency_bin(X, True)),
     'efficiency_wei~bin_local': ('sym01', lambda b, X: b.efficiency_wei(X, local=True), lambda b, X: b.efficiency_bin(X, local=True)),
     'strengths_und~degrees_und': ('sym01', lambda b, X: b.strengths_und(X), lambda b, X: b.degrees_und(X)),
     'strengths_dir~degrees_dir': ('dir01', lambda b, X: b.strengths_dir(X), lambda b, X: b.degrees_dir(X)[2]),
@@ -38,6 +40,8 @@ PAIRS = {
     # directed -> undirected on symmetric matrices
     'clustering_coef_bd~bu': ('sym01', lambda b, X: b.clustering_coef_bd(X), lambda b, X: b.clustering_coef_bu(X)),
     'clustering_coef_wd~wu': ('symw', lambda b, X: b.clustering_coef_wd(X), lambda b, X: b.clustering_coef_wu(X)),
+    'clustering_coef_wd~wu@signed': ('symsigned', lambda b, X: b.clustering_coef_wd(X), lambda b, X: b.clustering_coef_wu(X)),
+    'transitivity_wd~wu@signed': ('symsigned', lambda b, X: b.transitivity_wd(X), lambda b, X: b.transitivity_wu(X)),
     'transitivity_bd~bu': ('sym01', lambda b, X: b.transitivity_bd(X), lambda b, X: b.transitivity_bu(X)),
     'transitivity_wd~wu': ('symw', lambda b, X: b.transitivity_wd(X), lambda b, X: b.transitivity_wu(X)),
     'degrees_dir_in~degrees_und': ('symw', lambda b, X: b.degrees_dir(X)[0], lambda b, X: b.degrees_und(X)),
@@ -120,7 +124,9 @@ def run(case, bct, REC):
     W = G.weigh(A, 'real', case['ws'], symmetric=sym)
     Wd = G.weigh(A, 'dyad', case['ws'] + 1, symmetric=sym)
     Wl = G.weigh(A, 'logu', case['ws'] + 2, symmetric=sym)   # magnitudes down to 1e-12: still connections
-    inputs = {'dir01': [A], 'sym01': [A] if sym else [], 'symw': [W, Wd, Wl] if sym else [], 'anyw': [W, Wd, Wl]}
+    Wc = G.weigh(A, 'const', case['ws'], symmetric=sym)      # a rescaled binary network
+    inputs = {'dir01': [A], 'sym01': [A] if sym else [], 'symw': [W, Wd, Wl, Wc] if sym else [], 'anyw': [W, Wd, Wl, Wc],
+              'symsigned': [G.weigh(A, 'signed', case['ws'] + 3, True) / 3.0, G.weigh(A, 'signedint', case['ws'] + 4, True)] if sym else []}
     for name, (cls, fa, fb) in PAIRS.items():
         if case.get('only') and name not in case['only']:
             continue
